@@ -4,7 +4,7 @@ From Coq Require Import List NArith Bool Lia.
 From Verif Require Import Common.Util Bft.Tree Bft.Model Bft.Quorum Bft.ProofsTally Bft.ProofsChain Bft.ProofsNode
   Bft.Safety Bft.ProofsWitness Bft.ProofsFinal Bft.ProofsMonotone Bft.ProofsCommit
   Bft.ProofsFind Bft.ProofsLive Bft.ProofsLive2 Bft.ProofsVote Bft.ProofsSuffix Bft.ProofsSafety
-  Bft.ProofsOrder Bft.ProofsTree2 Bft.ProofsCasts Bft.ProofsRun Bft.ProofsLink Bft.ProofsGap Bft.ProofsWitness2 Bft.SchedScore Bft.ProofsMonotone2 Bft.ProofsSync.
+  Bft.ProofsOrder Bft.ProofsTree2 Bft.ProofsCasts Bft.ProofsRun Bft.ProofsLink Bft.ProofsGap Bft.ProofsWitness2 Bft.SchedScore Bft.ProofsMonotone2 Bft.ProofsSync Bft.ProofsFork.
 Import ListNotations.
 Open Scope N_scope.
 
@@ -430,6 +430,14 @@ Proof.
   destruct f4s_fins as [A B]. split; [exact A|]. split; [exact B | exact f4s_conflict].
 Qed.
 
+(* The FINALITY fork height.  The oracle runs `run_f F` (Bft/Model.v, second half): the engine and the node with
+   forkConfig.FINALITY = F as the code uses it (zero state below F, no walk below F, first round counted from F / L, the
+   checkpoint search starts at getCheckPoint(F), the node consults Select / CommitBlock / ShouldVote only at or after F);
+   the correspondence run draws F = 0, aligned and unaligned values.  Every theorem of this file is about FINALITY = 0,
+   which is exactly the F = 0 instance of what the oracle runs: *)
+Theorem oracle_run_at_finality_0_is_the_verified_model guard c w evs : run_f 0 guard c w evs = run guard c w evs.
+Proof. exact (run_f0 guard c evs w). Qed.
+
 Print Assumptions quorum_intersection_count.
 Print Assumptions quorum_honest_count.
 Print Assumptions quorum_intersection_weight.
@@ -464,3 +472,4 @@ Print Assumptions conflicting_commits_shape.
 Print Assumptions bft_safety_without_premise_refuted.
 Print Assumptions f4_run_outside_premise.
 Print Assumptions safety_fails_with_scheduler_scores.
+Print Assumptions oracle_run_at_finality_0_is_the_verified_model.
